@@ -12,6 +12,7 @@ type vCtx struct {
 }
 
 type c10call struct {
+	wlate   string
 	wt      string
 	wtOK    bool
 	who     string
@@ -24,7 +25,7 @@ type c10call struct {
 func VerifC10_Dispatch() {
 	vNativeReset()
 	mode := vInt("mode", 0, 2)
-	shape := vInt("shape", 0, 17)
+	shape := vInt("shape", 0, 18)
 	helpCmd := vBool("helpcmd")
 	gv := positional("gv", "a", "b", "w", "a1", "help", "r", "rs", "we")
 	av := positional("av", "a", "b", "w", "a1", "help", "r", "rs", "we")
@@ -36,7 +37,8 @@ func VerifC10_Dispatch() {
 			vc, ok := c.(vCtx)
 			g, _ := o.Value("g").(string)
 			wt, _ := o.Value("wt").(string)
-			calls = append(calls, c10call{wt: wt, wtOK: o.Called("wt"), who: who, ctxOK: ok && vc.tag == "caller", args: args, g: g, gCalled: o.Called("g")})
+			wl, _ := o.Value("wlate").(string)
+			calls = append(calls, c10call{wlate: wl, wt: wt, wtOK: o.Called("wt"), who: who, ctxOK: ok && vc.tag == "caller", args: args, g: g, gCalled: o.Called("g")})
 			return nil
 		}
 	}
@@ -62,6 +64,7 @@ func VerifC10_Dispatch() {
 	w.String("wt", "dwt")
 	we := w.NewCommand("we", "command below the wrapper")
 	we.SetCommandFn(fn("we"))
+	wlate := w.String("wlate", "dwl") // declared when the wrapper's sub command already exists
 	r := opt.NewCommand("r", "require-order only here")
 	r.SetRequireOrder()
 	r.SetUnknownMode(Pass)
@@ -109,6 +112,9 @@ func VerifC10_Dispatch() {
 	case 14:
 		// a bare optional-value option, the terminator, then a command name: nothing is selected
 		args, wantArgs = []string{"--color", "--", "a"}, []string{"a"}
+	case 18:
+		// an option the wrapper declares after its sub command exists reaches that sub command
+		args, want, wantArgs = []string{"w", "--wlate", gv, "we", p}, "we", []string{p}
 	case 17:
 		// a command name as a further value of a list option is a value
 		args = []string{"--tag", p, "a"}
@@ -159,6 +165,9 @@ func VerifC10_Dispatch() {
 		vAssert("dispatch/list-took-the-command-name", eqStrs(*tags, []string{p, "a"}))
 	} else {
 		vAssert("dispatch/list-untouched", len(*tags) == 0)
+	}
+	if shape == 18 {
+		vAssert("dispatch/late-wrapper-option-value", *wlate == gv && c.wlate == gv)
 	}
 	if shape == 13 {
 		vAssert("dispatch/wrapper-option-value", c.wt == gv)
